@@ -606,7 +606,9 @@ def r8_text_round_trip(ctx):
         """the formatted pieces whose value is a coordinate symbol"""
         xs = {repr(v) for v in world.x.data}
         return [p for p in pieces if isinstance(p, FVal) and repr(p.value) in xs]
-    variants = {"xyz": [dict(cell=False, time=False)], "mdcrd": [dict(cell=True, time=False), dict(cell=False, time=False)],
+    # full=True: values as wide as their fields allow (AMBER coordinates / box up to the 8.3 field limit): fields without a literal blank between them touch
+    variants = {"xyz": [dict(cell=False, time=False), dict(cell=False, time=False, full=True)],
+                "mdcrd": [dict(cell=True, time=False), dict(cell=False, time=False), dict(cell=True, time=False, full=True), dict(cell=False, time=False, full=True)],
                 "lammpstrj": [dict(cell=True, ortho=True, time=False), dict(cell=True, time=False)],
                 "gro": [dict(cell=True, time=True), dict(cell=False, time=False), dict(cell=True, time=False), dict(cell="triangular", time=True)]}
     for key in ("xyz", "mdcrd", "lammpstrj", "gro"):
@@ -616,10 +618,16 @@ def r8_text_round_trip(ctx):
         for var in variants[key]:
             vdesc = ", ".join("%s=%s" % kv for kv in sorted(var.items()))
             root = W.new_root()
+            full = var.pop("full", False)
             world = W.World(NF, **var)
             try:
                 pieces = W.written(ctx, key, world, [(0, NF)], root)
-                got, me = W.read_back(ctx, key, pieces, root)
+                if full:
+                    from ..ttext import full_fields
+                    with full_fields():
+                        got, me = W.read_back(ctx, key, pieces, root)
+                else:
+                    got, me = W.read_back(ctx, key, pieces, root)
             except Raised as e:
                 ctx.violated("C01-R8", wfn, rel, q, "%d frames written and read back (%s)" % (NF, vdesc), "what the writer produces is refused: %s" % (e.exc or e))
                 continue
@@ -822,7 +830,8 @@ def r8_pdb(ctx):
     rel = W.PDB
     wfn = ctx.py.func(rel, "PDBTrajectoryFile.write")
     q = "PDBTrajectoryFile.write / PdbStructure._load"
-    spec = [("A", [("ALA", 5, [("N", "N"), ("CA", "C")]), ("GLYX", 6, [("C", "C"), ("HA12", "H")])]), ("", [("HOH", 1, [("O", "O")]), ("CL", 2, [("CL", "Cl")])])]
+    # names longer than their columns (GLYX, HG211 / HG212: both written as HG21), a two-letter element, a chain without an id
+    spec = [("A", [("ALA", 5, [("N", "N"), ("CA", "C")]), ("GLYX", 6, [("C", "C"), ("HG211", "H"), ("HG212", "H")])]), ("", [("HOH", 1, [("O", "O")]), ("CL", 2, [("CL", "Cl")])])]
     L = [Rat(Poly.var("L%d" % k)) for k in range(3)]
     A = [Rat(Poly.var("A%d" % k)) for k in range(3)]
     for cell in (True, False):
@@ -833,7 +842,7 @@ def r8_pdb(ctx):
             n_at = len(top.atoms)
             xs = [Ten.sym("x%d" % f, (n_at, 3)) for f in range(2)]
             lines, me = W.pdb_written(ctx, top, xs, root, lengths=L if cell else None, angles=A if cell else None)
-            rec = W.pdb_loaded(ctx, lines, root)
+            rec = W.pdb_read_models(ctx, lines, root)
         except Raised as e:
             ctx.violated("C01-R8", wfn, rel, q, "two models written and loaded (%s)" % cdesc, "refused: %s" % (e.exc or e))
             continue
@@ -841,20 +850,20 @@ def r8_pdb(ctx):
             ctx.undecided("C01-R8", wfn, rel, q, "two models written and loaded (%s)" % cdesc, "not evaluable: %s" % e)
             continue
         why = []
-        if [len(m_) for m_ in rec["models"]] != [n_at, n_at]:
-            why.append("%s atoms per model are loaded from 2 models of %d atoms" % ([len(m_) for m_ in rec["models"]], n_at))
+        pos = rec["positions"]
+        if not (isinstance(pos, Ten) and pos.shape == (2, n_at, 3)):
+            why.append("positions of shape %s are loaded from 2 models of %d atoms" % (getattr(pos, "shape", None), n_at))
         else:
-            for f_, m_ in enumerate(rec["models"]):
-                for a_, at in zip(m_, top.atoms):
-                    pos = a_.location[1] if getattr(a_, "location", None) else None
-                    want = [xs[f_].data[at.index * 3 + k_] for k_ in range(3)]
-                    if not (isinstance(pos, Ten) and len(pos.data) == 3 and all(T.same_value(p_, w_) for p_, w_ in zip(pos.data, want))):
-                        why.append("model %d atom %d: position read back as %s" % (f_, at.index, repr(getattr(pos, "data", pos))[:60]))
-                    chain_letter = at.residue.chain.chain_id[:1] or "AB"[at.residue.chain.index]
-                    ident = (a_.name_with_spaces.strip(), a_.residue_name, a_.chain_id, a_.residue_number, a_.element_symbol.upper(), a_.segment_id)
-                    wanti = (at.name[:4], at.residue.name[:3], chain_letter, at.residue.resSeq, at.element.symbol.upper(), at.segment_id)
-                    if ident != wanti:
-                        why.append("model %d atom %d is read back as %s, written from %s" % (f_, at.index, ident, wanti))
+            exp = [xs[f_].data[k_] for f_ in range(2) for k_ in range(n_at * 3)]
+            bad = [k_ for k_, (p_, w_) in enumerate(zip(pos.data, exp)) if not T.same_value(p_, w_)]
+            if bad:
+                k_ = bad[0]
+                why.append("model %d atom %d: coordinate read back as %s" % (k_ // (n_at * 3), (k_ // 3) % n_at, repr(pos.data[k_])[:60]))
+        wanti = [(at.residue.chain.chain_id[:1] or "AB"[at.residue.chain.index], at.residue.name[:3], at.residue.resSeq, at.name[:4], at.element.symbol.upper()) for at in top.atoms]
+        goti = [(c_, rn_, rs_, an_, (el_ or "").upper()) for (c_, rn_, rs_, an_, el_, ser_) in rec["atoms"]]
+        if goti != wanti:
+            k_ = next((i_ for i_, (g_, w_) in enumerate(zip(goti, wanti)) if g_ != w_), min(len(goti), len(wanti)))
+            why.append("%d atoms in the topology read back, %d written; first difference at atom %d: %s / %s" % (len(goti), len(wanti), k_, goti[k_] if k_ < len(goti) else None, wanti[k_] if k_ < len(wanti) else None))
         ctx.decide(not why, "C01-R8", wfn, rel, q, "2 models x %d atoms in 2 chains: positions, atom / residue names, residue numbers, chain letters, elements come back (%s)" % (n_at, cdesc), "", "; ".join(why[:2]))
         if cell:
             okc = isinstance(rec["lengths"], tuple) and isinstance(rec["angles"], tuple) and len(rec["lengths"]) == 3 and all(T.same_value(a_, b_) for a_, b_ in zip(rec["lengths"] + rec["angles"], L + A))
